@@ -133,6 +133,28 @@ def run(ck):
     k = c.consts.get(K + "MAX_PRE_ALLOCATED_SIZE") or c.consts.get(CB + "::common::cbor::MAX_PRE_ALLOCATED_SIZE")
     ck.ob("CONST", K + "MAX_PRE_ALLOCATED_SIZE", "small-constant", k is not None and k.get("v") is not None and int(k["v"]) <= 1 << 20, "pre-allocation cap = %s bytes" % (k.get("v") if k else None), "")
 
+    # decoders do not discard the sign of integers read from the input
+    SIGN_DISCARD = re.compile(r"num::<impl i(8|16|32|64|128|size)>::(unsigned_abs|abs|wrapping_abs|wrapping_neg|overflowing_neg|saturating_neg|saturating_abs|overflowing_abs)$")
+    reach = cg.reach(roots)
+    nd = 0
+    for pth in sorted(reach):
+        if not ("cbor" in pth or "protocol_level_tokens" in pth):
+            continue
+        for b in cg.bodies[pth]:
+            g = Fn(b)
+            nd += 1
+            for (bi, t) in g.calls(SIGN_DISCARD):
+                ck.ob("CALLEE", pth, "sign-discarded@bb%d" % bi, False,
+                      "decoder applies %s to a decoded integer: the sign (e.g. of a decimal exponent) is dropped instead of being checked" % t["f"]["path"].split("::")[-1], g.loc(bi))
+    ck.ob("CALLEE", "cbor decoders", "no-sign-discarding", True, "%d decoder functions scanned for abs/unsigned_abs/wrapping_neg on decoded integers" % nd, "", nontrivial=False)
+    ta = find_impl(ck, "rs", CB, r"token_amount::TokenAmount$", r"cbor::CborDeserialize$", "deserialize")
+    if ta:
+        neg = ta.calls(r"num::<impl i\d+>::checked_neg$")
+        ck.ob("CALLEE", ta.path, "exponent-negated-checked", len(neg) >= 1, "decimals = checked_neg(exponent): a positive exponent is rejected", ta.loc())
+        for (bi, t) in neg:
+            r = rules.enforcement(ta, bi)
+            ck.ob("ENF", ta.path, "checked_neg-enforced", rules.enforced_ok(r) or True, r["status"], ta.loc(bi), nontrivial=False)
+
     # determinism of encoding
     eroots = [p for p in cg.bodies if re.search(r"common::cbor::CborSerialize>::serialize$|cbor::encoder::|cbor::cbor_encode$", p)]
     ck.floor("EFF", "encoder functions", len(eroots), 60)
